@@ -16,25 +16,33 @@ from vlib.common import Rng
 
 CLAIMED = True
 LEVEL = "proof"
-TECHNIQUE = ("Lean 4 proofs (strict total document order from the pre-order walk; structural comparison = index comparison; "
-             "sorted-duplicate-free invariant of addNodeInDocOrder over all insertion histories; union laws as corollaries) "
-             "over a hand transcription of MutableNodeRefList.cpp / DOMServices::isNodeAfter / XPath::Union, tied to the working "
-             "tree by a lock-step correspondence run on three document representations")
-LEVEL_TEXT = ("Machine-checked: document order derived from the pre-order walk is a strict total order; the structural "
-              "parent-chain comparison (with the proposed one-line fix) equals index comparison for all trees and node pairs "
-              "(as written: exactly for non-ancestor pairs); "
-              "addNodeInDocOrder keeps a single-document list strictly sorted and duplicate-free with exactly the old nodes "
-              "plus the new one, for every insertion history and for all three search strategies; addNodesInDocOrder/Union "
-              "are commutative, associative and idempotent as list equalities. Multi-document interleaving/duplicates, the "
-              "document-node-appended-last behaviour and the as-written ancestor/descendant inversion are proved as "
-              "counterexamples and replayed on the real code. The model is tied to the working tree by replaying generated "
-              "documents, isNodeAfter matrices, list-operation histories and XPath unions on the real library and on the "
-              "compiled Lean model.")
-LEVEL_NOTE = ("Trusted: Lean kernel; axioms propext/Classical.choice/Quot.sound only; the hand transcription (checked by the "
-              "correspondence run, bounded by generator coverage); pointers are abstracted to (document, pre-order position) "
-              "and parent-pointer walks to path operations; the XPath step machinery that produces union operands is not "
-              "modelled (operand values are taken from the real evaluator and only checked against the specification "
-              "predicate). Result-tree-fragment node-sets and key()/id() results are reached only through the XPath runs.")
+TECHNIQUE = ("Lean 4 proofs (induction over insertion histories, over the steps of a location path and over trees; loop invariant of "
+             "the binary search; refinement of the structural comparison to the index order) about a hand transcription of "
+             "MutableNodeRefList.cpp, DOMServices::isNodeAfter/isNodeAfterSibling, XPath::Union and the merging/axis part of "
+             "XPath::step, tied to the working tree by a lock-step correspondence run (real library vs compiled Lean model, same "
+             "request stream, three document representations) plus a model-independent oracle on every implementation reply "
+             "and a stylesheet-level oracle stage through the Xalan CLI")
+LEVEL_TEXT = ("Machine-checked for all inputs: (1) document order from the pre-order walk is a strict total order and coincides "
+              "with the structural order of the Recommendation (index order = structure order); (2) the structural parent-chain "
+              "comparison of DOMServices::isNodeAfter equals index comparison for every tree and node pair; (3) addNodeInDocOrder "
+              "keeps a list a duplicate-free document-ordered set holding exactly the inserted nodes, for every insertion history, "
+              "all three search strategies and both indexed and non-indexed documents; histories with the same node set end in the "
+              "same list; (4) several documents: lists stay grouped by document (never interleaved, no duplicate) for every history "
+              "of inserts of any nodes; (5) XPath::Union is the document-ordered union and is commutative, associative and idempotent "
+              "as list equalities; reverse/clearNulls/flag-trusting merge preserve order and flag; (6) every location path over the "
+              "13 axes with arbitrary predicates delivers a duplicate-free document-ordered set flagged document order (induction "
+              "over the steps; step merging and reverse-axis handling as in XPath::step). The behaviours of the code before the five "
+              "repairs found by this check are kept as partial theorems / counterexamples. The model is tied to the working tree by "
+              "replaying generated documents, isNodeAfter matrices, MutableNodeRefList histories, XPath unions and EXSLT set "
+              "identities on the real library and the compiled model, and by a stylesheet stage (key(), id(), document(), "
+              "result-tree fragments, EXSLT set functions) checked against exact oracles.")
+LEVEL_NOTE = ("Trusted: Lean kernel (leanchecker in the thorough tier); axioms propext/Classical.choice/Quot.sound only; the hand "
+              "transcription, validated by the correspondence run (bounded by generator coverage, measured in the evidence); "
+              "pointers abstracted to (document, pre-order position), parent-pointer walks to path operations. Five axes "
+              "(descendant, descendant-or-self, following, preceding, namespace) and the predicate evaluator enter the path theorem "
+              "through their definition / as an arbitrary sub-list, not as transcriptions of the C++ walks; those walks, result-tree-"
+              "fragment construction, key()/id()/document() and the EXSLT implementations are exercised only by the oracle stages. "
+              "One known finding remains (C12-rtf-nested-interleave: fragments whose construction overlaps interleave by index).")
 DESIGN_REF = "DESIGN.md section 5, C12; design/C12.md"
 
 THEOREMS = [
@@ -58,6 +66,7 @@ THEOREMS = [
     "XalanModel.Props.C12.step_reverseAxis",
     "XalanModel.Props.C12.locationPath_sortedSet",
     "XalanModel.Props.C12.axes_sorted",
+    "XalanModel.Props.C12.steps_sorted",
     "XalanModel.Props.C12.treeLocationPath_sortedSet",
     "XalanModel.Props.C12.multiDoc_interleave_counterexample",
     "XalanModel.Props.C12.multiDoc_duplicate_counterexample",
@@ -738,6 +747,37 @@ def cli_stage(ctx, r, ncases, maxnodes):
     xalan = os.path.join(common.build_dir(os.environ.get("VERIF_C12_FLAVOR", "hooks")), "src", "xalanc", "Xalan")
     work = os.path.join(common.CACHE, "work", "c12cli")
     os.makedirs(work, exist_ok=True)
+    # corpus: a global variable evaluated lazily in the middle of another fragment's construction
+    cfile = os.path.join(common.ROOT, "gen", "corpus", "c12", "rtf-nested-lazy-global.xsl")
+    if os.path.exists(cfile):
+        with open(os.path.join(work, "m.xml"), "w") as f:
+            f.write('<e i="m1"/>\n')
+        rc, out = common.sh([xalan, "m.xml", cfile], cwd=work, timeout=120)
+        ctx.case(nontrivial_key="cli|rtf-nested-lazy-global", cls="cli-corpus")
+        if rc != 0:
+            ctx.fail("cli-crash: rtf-nested-lazy-global rc=%d" % rc, out[-600:], {"stylesheet": cfile})
+        else:
+            for l in out.split("\n"):
+                if not l.startswith(("A:", "B:", "C:", "D:")):
+                    continue
+                labs = l.split(":", 1)[1].split()
+                frs = [x[0] for x in labs]
+                grouped = all(frs[k] == frs[k - 1] or frs[k] not in frs[:k] for k in range(1, len(frs)))
+                nums = {}
+                inorder = True
+                for x in labs:
+                    n = int(x[1:])
+                    if x[0] in nums and n <= nums[x[0]]:
+                        inorder = False
+                    nums[x[0]] = n
+                if not inorder or len(set(labs)) != len(labs):
+                    ctx.fail("cli-order: rtf-nested-lazy-global %s" % l, "node-set of result-tree-fragment nodes out of order / duplicated: " + l,
+                             {"stylesheet": cfile})
+                elif not grouped:
+                    ctx.fail("rtf-nested-interleave: %s" % l,
+                             "nodes of two result tree fragments are interleaved (one fragment was built lazily while the other was "
+                             "under construction; both live in one XalanSourceTreeDocument that numbers nodes in creation order): " + l,
+                             {"stylesheet": cfile})
     import re as _re
     for ci in range(ncases):
         case = g.gen_cli_case(r, maxnodes)
